@@ -2,13 +2,13 @@ module List = Stdlib.List
 open Conv
 open RW
 
-let op_of (x : Sx.t) : op =
+let op_of (flusher : bool) (x : Sx.t) : op =
   match Sx.tag x, Sx.args x with
   | "wh", [c] -> OWriteHeader (z_of_int (Sx.int_of c))
   | "w", [bs; acc] -> OWrite (str bs, n_of_int (Sx.int_of acc))
   | "ws", [bs; acc] -> OWrite (str bs, n_of_int (Sx.int_of acc))   (* io.WriteString is a Write *)
   | "cp", [bs; acc] -> OWrite (str bs, n_of_int (Sx.int_of acc))   (* io.Copy of a short reader is one Write *)
-  | "fl", [] -> OFlush
+  | "fl", [] -> OFlush flusher
   | "bf", [id] -> OBefore (nat_of_int (Sx.int_of id), false)
   | "bfp", [id] -> OBefore (nat_of_int (Sx.int_of id), true)
   | "st", [] -> OStatus
@@ -41,15 +41,16 @@ let sx_ev : ev -> Sx.t = function
 (* returns (model output, spec verdict on observed, nontrivial, class) *)
 let eval (input : Sx.t) (obs : Sx.t) : Sx.t list * bool * bool * string =
   let head = bool_of (List.hd (Sx.args (Sx.field "head" input))) in
-  let ops = List.map op_of (Sx.args (Sx.field "ops" input)) in
+  let plain = (match Sx.field_opt "plain" input with Some p -> bool_of (List.hd (Sx.args p)) | None -> false) in
+  let ops = List.map (op_of (not plain)) (Sx.args (Sx.field "ops" input)) in
   let outs = List.map (fun o -> List.map ev_of (Sx.list o)) (Sx.args (Sx.field "outs" obs)) in
   let m = run head ops in
   let sx_m = Sx.L (Sx.A "outs" :: List.map (fun es -> Sx.L (List.map sx_ev es)) m) in
   let spec = spec_ok head ops outs in
   (* non-trivial: a hook registered before the first trigger and >= 2 triggers *)
-  let trig = List.length (List.filter (function OWriteHeader _ | OWrite _ | OFlush -> true | _ -> false) ops) in
+  let trig = List.length (List.filter (function OWriteHeader _ | OWrite _ | OFlush _ -> true | _ -> false) ops) in
   let hooks = List.exists (function OBefore _ -> true | _ -> false) ops in
   let panics = List.exists (function OBefore (_, true) -> true | _ -> false) ops in
-  let cls = (if panics then "panicking-hook/" else "") ^ (if head then "HEAD" else "other") ^ "/" ^ (match List.find_opt (function OWriteHeader _ | OWrite _ | OFlush -> true | _ -> false) ops with
-      | Some (OWriteHeader _) -> "first=WriteHeader" | Some (OWrite _) -> "first=Write" | Some OFlush -> "first=Flush" | _ -> "no-trigger") in
+  let cls = (if plain then "no-flusher/" else "") ^ (if panics then "panicking-hook/" else "") ^ (if head then "HEAD" else "other") ^ "/" ^ (match List.find_opt (function OWriteHeader _ | OWrite _ | OFlush _ -> true | _ -> false) ops with
+      | Some (OWriteHeader _) -> "first=WriteHeader" | Some (OWrite _) -> "first=Write" | Some (OFlush _) -> "first=Flush" | _ -> "no-trigger") in
   ([sx_m], spec, trig >= 2 && hooks, cls)
